@@ -112,7 +112,7 @@ func Filter(s string, o StrOpt) string {
 // LogfmtKey returns a legal logfmt key (non-empty, no space, '=', quote, control
 // character, and — because group members are flattened with dots — no dot).
 func (r *R) LogfmtKey(uniq string) string {
-	alphabet := "abcdefghijklmnopqrstuvwxyzABCDEFGHIJKLMNOPQRSTUVWXYZ0123456789_-/:@#$%+*~^!?|;,()[]{}<>&'`"
+	alphabet := "abcdefghijklmnopqrstuvwxyzABCDEFGHIJKLMNOPQRSTUVWXYZ0123456789_-/:@#$%+*^!?|;,()[]{}<>&'`"
 	n := r.Range(0, 5)
 	var sb strings.Builder
 	sb.WriteString(uniq)
